@@ -109,7 +109,12 @@ CLAIMS["C08"] = proof(
     "History half proved for every history (alphabet as C04): C08_waiters_finish — Initialized and every woken task re-polled => no wait / get_or_init / get_or_try_init / set is pending (both events were notified with notify_additional(MAX), "
     "each waiter woken through its latest waker completes at its next poll). C08_hand_over — the cell is Initializing only while some future is running its closure (after Err, panic or cancellation it is Uninitialized again, never stuck); "
     "Uninitialized at rest => no caller is still queued on active_initializers (the guard's notify(1) woke one; the notification is forwarded if that caller is cancelled; at its poll it runs its own closure). From the ownership invariant of both "
-    "events (C08_invariant). 'Error/panic reported only to the caller whose closure produced it' is by construction of the model and compared with the implementation by the correspondence. Blocking forms / threads: not proved. " + CORR, NOTE)
+    "events (C08_invariant). 'Error/panic reported only to the caller whose closure produced it' is by construction of the model and compared with the implementation by the correspondence. "
+    "Schedule half PROVED: C08_sched — on the micro-step machine of coq/Sched/OnceEvSched.v (the state word and active_initializers at atomic-action granularity; initialize_or_wait cut at its load, compare_exchange, listen, the poll of the listener, "
+    "the stores, the notifies and the drop of its local listener; the closure abstract: it pends any number of times, succeeds, fails, panics, or the future is dropped while it runs; any number of futures, spurious polls, cancellation) for EVERY schedule "
+    "shorter than 2^64 actions a state in which nobody is initialising, nothing is in flight and every woken future has been re-polled has no future waiting on active_initializers (hand-over after a failed or cancelled initialiser, completion after a successful "
+    "one); C08_sched_never_stuck: the state is Initializing only while some future is the initialiser; C08_sched_no_guard_notify_refuted: the machine whose guard does not notify loses the hand-over; which machine the source is (gen_once_gn, gen_once_na) is read "
+    "from the generated site table on every run. Passive waiters (wait(): own event, listen-then-check) and blocking forms are not in the machine: ties and the loom scenario once_init_race. " + CORR, NOTE)
 
 CLAIMS["C06"] = proof(
     "History half proved at full strength for every history shorter than 2^61 operations over the full RwLock alphabet (five future kinds, borrowed and Arc, any wakers, spurious polls, every outcome of the inner mutex's starvation clock, "
